@@ -1,13 +1,14 @@
 (* C09 — the formatter preserves meaning, is idempotent and emits parseable source.
-   Only statements, closed by [exact lemma], with Print Assumptions beneath.
-   The full statement is kept as a Definition; what is proved is the literal
-   and token level (tokenSource is a right inverse of the lexer for every literal
-   kind, with the separation condition under which adjacent tokens cannot fuse),
-   totality, and acceptance; the fragment-level composition is NOT proved. *)
+   Statements with Print Assumptions beneath; the proofs are in coq/proofs/Bcl*.v (the short
+   bridging lemmas between doc_of and the proofs' position-free view are here).
+   The full statement C09_full_statement is proved as C09_full (all inputs, rune level).
+   Also stated: totality, the literal / token / line level (tokenSource is a right inverse of the
+   lexer for every token the lexer emits, adjacent tokens cannot fuse), the re-flow keeps
+   paragraphs and is a fixed point. *)
 From Coq Require Import String List NArith ZArith Bool.
 From J5V.lib Require Import Text Outcome.
 From J5V.model Require Import BclLexer BclParser BclFmt.
-From J5V.proofs Require Import BclPosProofs BclLexerProofs BclParserProofs BclFmtProofs BclFmtLitProofs BclReflowProofs.
+From J5V.proofs Require Import BclPosProofs BclLexerProofs BclParserProofs BclFmtProofs BclFmtLitProofs BclReflowProofs BclLexLitProofs BclFmtSeqProofs BclFragWfProofs BclFmtLineProofs BclWalkBackProofs BclFmtFileProofs BclDescGapProofs BclFmtRoundProofs BclFmtIdemProofs.
 Import ListNotations.
 
 (* ---- the position-free document of a fragment list -------------------------------------------- *)
@@ -123,6 +124,59 @@ Theorem C09_int_separation : forall c r tail s,
 Proof. exact relex_int. Qed.
 Print Assumptions C09_int_separation.
 
+(* token level, for every token of every kind: whatever NextToken emits (from any state of any
+   input) is read back, type and literal, from the text tokenSource renders for it, whenever the
+   text that follows cannot extend it ([sep_ok]: a regex is not followed by '/', a comment or
+   description ends the line, an identifier is not followed by an identifier rune, a number is
+   not followed by a digit or a dot) *)
+Theorem C09_token_roundtrip : forall fuel s t s' tail s2,
+  next_token_fuel fuel s = (LTok t, s') -> sep_ok (ty t) tail ->
+  rest s2 = token_source (mkTok (ty t) (lit t) pos0 pos0) ++ tail ->
+  lexes_to s2 (ty t) (lit t) tail.
+Proof. exact token_roundtrip. Qed.
+Print Assumptions C09_token_roundtrip.
+
+(* sequence level: a line made of rendered tokens and single spaces, in which every token has a
+   literal of its kind and cannot be extended by what follows it, is read back token by token *)
+Theorem C09_sequence_relex : forall items tail s, items_ok items tail -> ends_with_tok items ->
+  rest s = render_items items ++ tail ->
+  exists s', lex_run s (item_toks items) s' /\ rest s' = tail.
+Proof. exact items_relex. Qed.
+Print Assumptions C09_sequence_relex.
+
+(* fragment level, first half: everything the formatter renders is renderable — each token kept in a
+   fragment has a literal of its kind, references are non-empty identifier lists, tag values are
+   strings, a comment / description used as a value ends its statement (never inside an array,
+   never followed by a trailing comment), header descriptions exclude brace and comment *)
+Theorem C09_fragments_renderable : forall data fs, collect_fragments data = Ok fs -> Forall frag_lx fs.
+Proof. exact collect_fragments_lx. Qed.
+Print Assumptions C09_fragments_renderable.
+
+(* line level: for every header, assignment, comment and closing brace the walker can build, the
+   line the formatter writes (indentation, the rendered tokens with the formatter's own spacing,
+   the trailing comment, the newline) is read back as exactly the tokens of that fragment followed
+   by the EOL: adjacent emitted tokens never fuse *)
+Theorem C09_line_relex : forall f n REST s,
+  frag_lx f -> (forall d, f <> FDesc d) ->
+  rest s = tabs n ++ frag_line_text f ++ 10%N :: REST ->
+  exists s', lex_run s (item_toks (frag_items f) ++ [(EOL, [10%N])]) s' /\ rest s' = REST.
+Proof. exact fragment_line_relex. Qed.
+Print Assumptions C09_line_relex.
+
+(* fragment level, walker half: walking any token list (whatever its positions) whose types and
+   literals are the canonical tokens of renderable fragments and description blocks, each line
+   ended by an EOL, optionally preceded by a blank line, rebuilds fragments with the same
+   documents — same types, tags, marks, qualifiers, keys, operators, values, comments *)
+Theorem C09_walk_back : forall es fuel s, stream_ok es -> pt s = stream es ->
+  (length (wrest s) < fuel)%nat ->
+  exists fs, walk_fragments_loop fuel true s = WalkOk fs [] /\
+             map (fun f => match f with FDesc d => DD (dvalue d) | _ => fdoc_of f end) fs
+             = map (fun be => entry_doc (snd be)) es.
+Proof.
+  intros es fuel s H1 H2 H3. destruct (walk_stream_back es fuel s H1 H2 H3) as (fs & A & _ & B). eauto.
+Qed.
+Print Assumptions C09_walk_back.
+
 (* idempotence of the description re-flow (finding 22 lived here): feeding the re-flowed lines back
    gives the same lines, for every text and every width (also negative) *)
 Theorem C09_reflow_fixed_point : forall maxw input,
@@ -130,11 +184,125 @@ Theorem C09_reflow_fixed_point : forall maxw input,
 Proof. exact reflow_fixed_point. Qed.
 Print Assumptions C09_reflow_fixed_point.
 
-(* PARTIAL: C09_full_statement itself is not proved.  Missing: the fragment-level composition
-   (walk (lex (render fs)) = fs up to positions, from the literal and separation lemmas above),
-   and that rendering is a normal form on its own image (idempotence of the whole formatter; the
-   description re-flow part is C09_reflow_fixed_point).  Those clauses are evaluated on every run by the direct
-   oracle (re-parse, document comparison, format twice) and the byte-exact correspondence of Fmt. *)
+(* the description clause at component level: the re-flowed lines, joined with newlines as the formatter
+   prints them and the parser's popDescription re-joins them, have the same words and the same paragraph
+   breaks as the input text, for every text and width.  desc_doc is the declarative reading used by
+   doc_of above; paras (BclReflowProofs) is the left-fold form the proof works with *)
+Lemma paragraphs_paras : forall lines d c,
+  pflush (fold_left pstep (map fields lines) (d, c)) = d ++ paragraphs lines c.
+Proof.
+  induction lines as [|l r IH]; intros d c; cbn [map fold_left paragraphs].
+  - unfold pflush. cbn [fst snd]. destruct c; [rewrite app_nil_r|]; reflexivity.
+  - destruct (fields l) as [|w ws] eqn:E.
+    + cbn [pstep]. rewrite IH. unfold pflush. cbn [fst snd]. destruct c; [reflexivity|].
+      rewrite <- app_assoc. reflexivity.
+    + cbn [pstep fst snd]. rewrite IH. reflexivity.
+Qed.
+
+Lemma desc_doc_paras value : desc_doc value = paras (map fields (split_on 10 value)).
+Proof. unfold desc_doc, paras, pstate. rewrite paragraphs_paras. reflexivity. Qed.
+
+Theorem C09_reflow_same_paragraphs : forall maxw input,
+  desc_doc (join_with 10 (reformat_description input maxw)) = desc_doc input.
+Proof. intros. rewrite !desc_doc_paras. apply reflow_paras. Qed.
+Print Assumptions C09_reflow_same_paragraphs.
+
+(* ---- file level: output accepted, same document ------------------------------------------------- *)
+(* doc_of is a function of the position-free fragment view (fdoc_of) the walker-back proofs work with *)
+Definition ptok_doc (p : ptok) : N * list N := (tt_code (fst p), snd p).
+Definition conv_tag (t : mark * (list (list N) + list ptok)) : N * list (N * list N) :=
+  (mark_code (fst t), match snd t with inl r => map (fun i => (5%N, i)) r | inr v => map ptok_doc v end).
+Definition fdoc_doc (x : fdoc) : frag_doc :=
+  match x with
+  | DH ty tags quals desc op c => DHeader ty (map conv_tag tags) (map conv_tag quals) (option_map desc_doc desc) op c
+  | DA key app v c => DAssign key app (map ptok_doc v) c
+  | DD value => DDesc (desc_doc value)
+  | DC t => DComment (ptok_doc t)
+  | DX => DClose
+  end.
+
+Lemma value_doc_conv : forall v, value_doc v = map ptok_doc (BclWalkBackProofs.value_doc v).
+Proof.
+  apply value_ind'; [reflexivity|]. intros vs s e H. cbn [value_doc BclWalkBackProofs.value_doc].
+  cbn [map]. rewrite map_app. cbn [map]. f_equal. f_equal.
+  induction H as [|x r Hx _ IH]; [reflexivity|]. cbn [flat_map]. rewrite map_app, Hx, IH. reflexivity.
+Qed.
+
+Lemma tag_doc_conv t : tag_doc t = conv_tag (BclWalkBackProofs.tag_doc t).
+Proof.
+  unfold tag_doc, conv_tag, BclWalkBackProofs.tag_doc. cbn [fst snd]. destruct (tbody t); [reflexivity|].
+  rewrite value_doc_conv. reflexivity.
+Qed.
+
+Lemma doc_of_fdoc f : doc_of f = fdoc_doc (fdoc_of f).
+Proof.
+  destruct f as [h|a|d|t|t]; cbn [doc_of fdoc_of fdoc_doc]; try reflexivity.
+  - rewrite !map_map. rewrite (map_ext _ _ tag_doc_conv (htags h)), (map_ext _ _ tag_doc_conv (hquals h)).
+    f_equal. destruct (hdesc h); reflexivity.
+  - rewrite value_doc_conv. reflexivity.
+Qed.
+
+(* the entries the output is read from carry the documents of the original fragments: descriptions by
+   C09_reflow_same_paragraphs (the empty description, printed as a bare |, has no paragraphs either) *)
+Lemma entries_docs : forall fs n first last,
+  map (fun be => fdoc_doc (entry_doc (snd be))) (entries fs n first last) = map doc_of fs.
+Proof.
+  induction fs as [|f r IH]; intros n first last; [reflexivity|].
+  destruct f as [h|a|d|t|t]; cbn [entries map snd entry_doc]; rewrite IH; f_equal; try (symmetry; apply doc_of_fdoc).
+  cbn [fdoc_doc doc_of]. f_equal. unfold desc_lines.
+  pose proof (C09_reflow_same_paragraphs (80 - Z.of_nat n * 4) (dvalue d)) as H.
+  destruct (reformat_description (dvalue d) (80 - Z.of_nat n * 4)); exact H.
+Qed.
+
+(* the parser accepts what the formatter prints for every file the parser accepts *)
+Theorem C09_output_accepted : forall data, accepted data ->
+  exists out, fmt_runes data = Ok out /\ accepted out.
+Proof. exact fmt_output_accepted. Qed.
+Print Assumptions C09_output_accepted.
+
+(* and reading the output gives the same document: same blocks (type, tags, marks, qualifiers, nesting
+   as the sequence of open headers and closing braces), same assignments (keys, operators, values),
+   same comments, descriptions with the same words and paragraph breaks *)
+Theorem C09_same_document : forall data fs, collect_fragments data = Ok fs ->
+  exists out fs', fmt_runes data = Ok out /\ collect_fragments out = Ok fs' /\ map doc_of fs' = map doc_of fs.
+Proof.
+  intros data fs Hc. destruct (fmt_roundtrip data fs Hc) as (fs' & Hc' & Hdocs).
+  exists (fmt_join (diff_file fs 0) true (-1)), fs'. split; [|split; [exact Hc'|]].
+  - unfold fmt_runes, collect_fmt. rewrite Hc. reflexivity.
+  - rewrite <- (entries_docs fs 0 true (-1)). rewrite (map_ext _ _ doc_of_fdoc).
+    rewrite <- (map_map fdoc_of fdoc_doc), Hdocs, map_map. reflexivity.
+Qed.
+Print Assumptions C09_same_document.
+
+(* the full statement without its last clause (idempotence) *)
+Theorem C09_accepted_same_document : forall data, accepted data ->
+  exists out fs fs',
+    fmt_runes data = Ok out /\ accepted out /\
+    collect_fragments data = Ok fs /\ collect_fragments out = Ok fs' /\
+    map doc_of fs' = map doc_of fs.
+Proof.
+  intros data Ha. destruct (C09_output_accepted data Ha) as (out & Hf & Hacc).
+  destruct (proj1 (accepted_iff data) Ha) as (fs & Hc & _).
+  destruct (C09_same_document data fs Hc) as (out2 & fs' & Hf2 & Hc' & Hd).
+  rewrite Hf in Hf2. injection Hf2 as <-. exists out, fs, fs'. auto.
+Qed.
+Print Assumptions C09_accepted_same_document.
+
+(* formatting twice changes nothing: whatever Fmt returns is a fixed point of Fmt.  The fragments read
+   back have the same documents, the text of a line is a function of the document, the re-flow is a
+   fixed point, and a fragment read back starts one line after the previous one ended, or two when Fmt
+   printed an empty line, so the second run prints the same empty lines *)
+Theorem C09_idempotent : forall data out, fmt_runes data = Ok out -> fmt_runes out = Ok out.
+Proof. exact fmt_idempotent. Qed.
+Print Assumptions C09_idempotent.
+
+(* ---- the full statement ---------------------------------------------------------------------------- *)
+Theorem C09_full : C09_full_statement.
+Proof.
+  intros data Ha. destruct (C09_accepted_same_document data Ha) as (out & fs & fs' & Hf & Hacc & Hc & Hc' & Hd).
+  exists out, fs, fs'. repeat (split; [assumption|]). apply (C09_idempotent data out Hf).
+Qed.
+Print Assumptions C09_full.
 
 (* non-vacuity: a string with every escapable rune, a regex with slashes, nested array, trailing
    comment, description: accepted, formatted, the output accepted with the same document, and a
